@@ -1632,6 +1632,13 @@ impl Transaction {
         if self.transaction_type == TransactionType::Fee {
             return true;
         }
+        // the input of a rebroadcast transaction is a copy of the rebroadcast output whose
+        // amount includes the treasury payout, so it is not a utxoset key. the set of
+        // rebroadcast transactions is validated as a whole against the consensus values
+        // (rebroadcast hash and slip count) in block.validate().
+        if self.transaction_type == TransactionType::ATR {
+            return true;
+        }
         // if inputs exist, they must validate against the UTXOSET
         // if they claim to spend tokens. if the slip has no spendable
         // tokens it will pass this check, which is conducted inside
